@@ -8,6 +8,13 @@ import (
 
 type AliasMap map[string]string
 
+// AliasTarget identifies the table an alias stands for: a temporary table and a
+// file can have the same (upper-cased) path.
+type AliasTarget struct {
+	Path             string
+	IsTemporaryTable bool
+}
+
 func (m AliasMap) Add(alias parser.Identifier, path string) error {
 	uname := strings.ToUpper(alias.Literal)
 	if _, ok := m[uname]; ok {
